@@ -101,15 +101,15 @@ func init() {
 		return clusterCheckSched(prop, tier, p, []string{"leader_present", "restarted_node_up"}, append([]string{"HANDLER suites hv*: one real node booted from preloaded storage, two puppet peers, every event sequence up to 4 (quick) / 5 (thorough) steps over RequestVote/AppendEntries/InstallSnapshot injections (terms T-1..T+1, both candidates, older/equal/newer logs, prevote or real, clock elapsed or not), own timeouts, every answer to its own requests, crash at quiescent points and armed at storage-call boundaries, restart"}, untimedAssumptions...), nil, sp)
 	}
 	checks["C09"] = func(prop, tier string) int {
-		p := []plan{{"mem1-d3", 30}, {"mem2-d2", 32}, {"mem3-d2", 60}, {"memlead3-d2", 80}}
+		p := []plan{{"mem1-d3", 30}, {"mem2-d2", 32}, {"mem3-d2", 60}, {"memlead3-d2", 80}, {"nvsnaplease4-d3", 40}, {"nvlease5-d2", 30}}
 		if tier == "thorough" {
-			p = []plan{{"mem1-d4", 100}, {"mem2-d3", 300}, {"mem3-d3", 500}, {"memlead3-d3", 700}}
+			p = []plan{{"mem1-d4", 100}, {"mem2-d3", 300}, {"mem3-d3", 500}, {"memlead3-d3", 700}, {"nvsnaplease4-d4", 300}, {"nvlease5-d4", 200}}
 		}
 		sp := []schedPlan{{"mem-race", 2, 40}}
 		if tier == "thorough" {
 			sp = []schedPlan{{"mem-race", 3, 300}}
 		}
-		return clusterCheckSched(prop, tier, p, []string{"leader_present", "op_acked", "config_changed"}, untimedAssumptions, []string{"C01", "C02", "C07"}, sp)
+		return clusterCheckSched(prop, tier, p, []string{"leader_present", "op_acked", "config_changed"}, append([]string{"suites nvsnaplease4 / nvlease5 (timed, lease reads at a leader that reaches only non-voting members): a non-voter must not contribute to a leadership confirmation; reported here as C17/..."}, untimedAssumptions...), []string{"C01", "C02", "C07", "C17"}, sp)
 	}
 	checks["C16"] = func(prop, tier string) int {
 		p := []plan{{"sticky3r0-d2", 50}, {"sticky3r1-d2", 50}, {"sticky3r2-d2", 50}, {"rejoin3r0-d3", 30}, {"rejoin3r1-d2", 30}, {"rejoin3r2-d2", 30}, {"stickysnap3-d3", 30}, {"contested3r0-d2", 30}, {"removed3-d3", 30}}
@@ -122,9 +122,9 @@ func init() {
 			"horizon 36 intervals (6 election timeouts); deviation bound per suite"})
 	}
 	checks["C17"] = func(prop, tier string) int {
-		p := []plan{{"lease3-d2", 42}, {"cutlease3-d2", 30}, {"cutlease3-d3", 100}, {"minlease5-d2", 30}, {"nvlease5-d2", 30}, {"laglease3-d3", 30}}
+		p := []plan{{"lease3-d2", 42}, {"cutlease3-d2", 30}, {"cutlease3-d3", 100}, {"minlease5-d2", 30}, {"nvlease5-d2", 30}, {"laglease3-d3", 30}, {"nvsnaplease4-d3", 40}}
 		if tier == "thorough" {
-			p = []plan{{"lease3-d3", 600}, {"cutlease3-d4", 600}, {"minlease5-d3", 300}, {"nvlease5-d4", 200}, {"laglease3-d4", 200}}
+			p = []plan{{"lease3-d3", 600}, {"cutlease3-d4", 600}, {"minlease5-d3", 300}, {"nvlease5-d4", 200}, {"laglease3-d4", 200}, {"nvsnaplease4-d4", 300}}
 		}
 		sp := []schedPlan{{"lease-newleader", 2, 40}}
 		if tier == "thorough" {
